@@ -455,6 +455,25 @@ def settings_unit(ctx, unit):
         def up():
             return 'len=%d' % len(app.request.body.read())
 
+        @app.route('/mutate')
+        def mutate():
+            # a handler that edits what the framework parsed for it, in place
+            for src in (app.request.query, app.request.forms):
+                v = src.get('tag')
+                if isinstance(v, list):
+                    v.append('mutated-by-another-application')
+                    v.sort()
+            app.request.cookies.decode('latin1')
+            app.request.cookies.decode('cp1252') if False else None
+            return 'mutated'
+        app.route('/mutate', 'POST', mutate)
+
+        @app.route('/show', method=['GET', 'POST'])
+        def show_():
+            rq = app.request
+            c = rq.cookies
+            return repr((rq.query.get('tag'), rq.forms.get('tag'), rq.params.get('tag'), c.getunicode('n'), c.n, c.decode().get('n')))
+
         @app.route('/status')
         def status():
             how = app.request.query.get('how')
@@ -479,6 +498,9 @@ def settings_unit(ctx, unit):
         out['where'] = (r.status, r.body)
         r = call_app(app, make_environ('POST', '/up', body=b'x' * 300))
         out['up'] = (r.status, r.body)
+        cookie = 'n="' + 'Zoë'.encode('utf8').decode('latin1') + '"'
+        r = call_app(app, make_environ('POST', '/show', qs='tag=b&tag=a&x=1', body=b'tag=z&tag=y', content_type='application/x-www-form-urlencoded', headers={'Cookie': cookie}))
+        out['show'] = (r.status, r.body)
         r = call_app(app, make_environ('GET', '/status', qs='how=int&code=%d' % code))
         out['status_int'] = r.status.replace(str(code), 'NNN')
         r = call_app(app, make_environ('GET', '/status', qs='how=raise&code=%d' % code))
@@ -487,17 +509,47 @@ def settings_unit(ctx, unit):
 
     # what an application with default settings answers when nobody else has been told anything
     solo = observe(make(), 'solo')
-    expect = {'crash': ('500 Internal Server Error', False), 'up': ('200 OK', b'len=300'), 'status_int': 'NNN Unknown', 'status_raise': 'MMM Unknown'}
+    expect = {'crash': ('500 Internal Server Error', False), 'up': ('200 OK', b'len=300'), 'show': solo['show'], 'status_int': 'NNN Unknown', 'status_raise': 'MMM Unknown'}
     for k, v in expect.items():
         if solo[k] != v:
             ctx.violation('harness-solo-expectation-differs', f'{k}: {solo[k]} vs {v}', None)
             return
+    # redirect() reads the module-level default application's objects: a redirect raised in another application
+    # must still be built from that application's own response (its headers and cookies so far) and nothing else
+    D = ombott.default_app()
+    for r in list(D.router.routes.values()):
+        D.router.remove(r)
+
+    def d_handler():
+        D.response.headers['X-Default-App'] = 'header-of-the-default-application'
+        D.response.set_cookie('dcookie', 'of-default')
+        return 'x' * 33
+    D.route('/d', 'GET', d_handler)
+    B = ombott.Ombott()
+
+    def go():
+        B.response.headers['X-Mine'] = 'mine'
+        B.response.set_cookie('login', 'ok')
+        ombott.redirect('/home?next=1')
+    B.route('/go', 'GET', go)
+    for rep in range(2):
+        call_app(D, make_environ('GET', '/d'))
+        r = call_app(B, make_environ('GET', '/go', headers={'Host': 'b.example'}))
+        ctx.count('settings_arrangements')
+        ctx.count('reads_compared')
+        ctx.case(('redirect-in-non-default-app', rep), nontrivial=True)
+        hs = sorted(r.headers or [])
+        exp = sorted([('X-Mine', 'mine'), ('Location', 'http://b.example/home?next=1'), ('Content-Length', '0'), ('Content-Type', 'text/html; charset=UTF-8'), ('Set-Cookie', 'login=ok')])
+        if r.code != 303 or hs != exp or r.body:
+            ctx.violation('applications-interfere:redirect-in-another-application-carries-foreign-response-state',
+                          f'default application served a request, then another application redirects: {r.status} {hs} (expected 303 {exp})',
+                          {'unit': {'kind': 'note', 'what': 'redirect after the default application served a request'}})
     arrangements = []
     for who in ('default-config app', 'explicit-config app', 'module default app'):
-        for what in ('debug', 'max_body_size', 'domain_map', 'status-phrase'):
+        for what in ('debug', 'max_body_size', 'domain_map', 'status-phrase', 'in-place-mutation-of-parsed-values'):
             arrangements.append((who, what))
     for ai, (who, what) in enumerate(arrangements):
-        code = 471 + (ai % 9) if ai < 9 else 560 + ai
+        code = 471 + ai if ai < 25 else 560 + ai
         other = make() if who != 'explicit-config app' else make({'max_body_size': None})
         victim_a = make()                       # built with default config as well
         victim_b = ombott.default_app() if who == 'module default app' else make({'debug': False})
@@ -520,6 +572,9 @@ def settings_unit(ctx, unit):
         elif what == 'domain_map':
             other.config.domain_map = lambda host: 't1'
             other.config.app_name_header = 'HTTP_X_APP_NAME'
+        elif what == 'in-place-mutation-of-parsed-values':
+            cookie = 'n="' + 'Zoë'.encode('utf8').decode('latin1') + '"'
+            call_app(other, make_environ('POST', '/mutate', qs='tag=b&tag=a&x=1', body=b'tag=z&tag=y', content_type='application/x-www-form-urlencoded', headers={'Cookie': cookie}))
         else:
             r = call_app(other, make_environ('GET', '/status', qs='how=phrase&code=%d' % code))
             r2 = call_app(other, make_environ('GET', '/status', qs='how=phrase_raise&code=%d' % code))
